@@ -49,6 +49,22 @@ class Canon(ast.NodeTransformer):
             return ast.copy_location(ast.Compare(n.comparators[0], [_FLIP[type(n.ops[0])]()], [n.left]), n)
         return n
 
+    def visit_BinOp(self, n):
+        self.generic_visit(n)
+        # integer arithmetic on literals is the literal (2 | 16 is 18): named constants that were substituted fold away
+        if isinstance(n.left, ast.Constant) and isinstance(n.right, ast.Constant) and type(n.left.value) is int and type(n.right.value) is int \
+                and isinstance(n.op, (ast.BitOr, ast.BitAnd, ast.BitXor, ast.LShift, ast.Add, ast.Sub, ast.Mult)):
+            import operator
+            f = {ast.BitOr: operator.or_, ast.BitAnd: operator.and_, ast.BitXor: operator.xor, ast.LShift: operator.lshift,
+                 ast.Add: operator.add, ast.Sub: operator.sub, ast.Mult: operator.mul}[type(n.op)]
+            try:
+                v = f(n.left.value, n.right.value)
+            except Exception:
+                return n
+            if abs(v) < 2 ** 64:
+                return ast.copy_location(ast.Constant(value=v), n)
+        return n
+
     def visit_UnaryOp(self, n):
         self.generic_visit(n)
         if isinstance(n.op, ast.Not):
